@@ -405,9 +405,11 @@ func (l *log) delete(offsets map[int64]struct{}) ([]Message, int64, error) {
 
 	wasWriter := false
 	var writerVersion message.Version
+	var writerLen int
 	l.writerMu.Lock()
 	if l.writer.reader == rdr {
 		wasWriter = true
+		writerLen = l.writer.index.Len()
 		// read under the lock: a concurrent Publish may replace l.writer on rollover
 		writerVersion = l.writer.messages.Version()
 		if err := l.writer.Sync(); err != nil {
@@ -443,6 +445,17 @@ func (l *log) delete(offsets map[int64]struct{}) ([]Message, int64, error) {
 	}
 	rs, err := rdr.segment.Rewrite(offsets, l.params, mversion, iversion)
 	if err != nil {
+		if wasWriter && errors.Is(err, message.ErrCorrupted) {
+			// The writing segment is rewritten without holding the writer lock: a record that a
+			// concurrent Publish is still writing reads as a torn tail. If the segment has changed
+			// since it was synced above, this is the errSegmentChanged situation, not corruption.
+			l.writerMu.Lock()
+			changed := l.writer.reader != rdr || l.writer.index.Len() != writerLen
+			l.writerMu.Unlock()
+			if changed {
+				return nil, 0, nil
+			}
+		}
 		return nil, 0, err
 	}
 	vhook.Pause("delete.rewritten")
